@@ -192,6 +192,45 @@ def gen_read(rng, idx):
     return text, {"tag": tag, "kind": "read", "src": src}
 
 
+# line sets for `read` WITHOUT -r on a shared descriptor: continuations followed by an empty line, by another backslash, at the end of input,
+# escaped blanks and IFS characters; `read` must consume exactly the logical line and leave every later byte for the next reader
+READ_PAYLOADS = [r"a\\\n\nb\nrest1\nrest2\n", r"c\\\n\\\nd\ne\n", r"k1\\\nk2\nk3\nk4\n", r"x\\\\\ny\nz\n", r"p\\ q\\\n r\ns\n", r"\\\n\\\n\\\nt\nu\n",
+                 r"one\ntwo\\", r"m\\\n", r"\n\nq\n", r"  lead\\\n  cont  \nnext\n", r"a\\tb\\\n\\\n\nc\nd\n", r"h\\\n\n\\\n\ni\n"]
+
+
+def gen_read_hostile(rng, idx, payload=None, opts=None):
+    tag = "r%d" % idx
+    payload = payload if payload is not None else rng.choice(READ_PAYLOADS)
+    opts = opts if opts is not None else rng.choice(["", "", "-r ", "IFS= "])
+    pre, flag = ("IFS= ", "") if opts == "IFS= " else ("", opts)
+    src = rng.choice(["file", "pipe"])
+    body = '{ %sread %sfirst; %sread %ssecond; cat | sink -o "$L" -t .%srest; }' % (pre, flag, pre, flag, tag)
+    if src == "file":
+        text = "printf '%s' > rf.%s\n%s < rf.%s\n" % (payload, tag, body, tag)
+    else:
+        text = "printf '%s' | %s\n" % (payload, body)
+    text += 'echo "@rd.%s ${#first} ${#second} $(printf \'%%s|%%s\' "$first" "$second" | cksum)"\n' % tag
+    return text, {"tag": tag, "kind": "read", "src": src + ":hostile"}
+
+
+# command-substitution output with NUL bytes and newlines in every arrangement at the end (NULs are dropped, then ALL trailing newlines)
+SUBST_TAILS = [r"ab\n\0", r"ab\n\0\n", r"ab\0\n\n", r"r1\n\0r2\n\0", r"\0\n\0\n", r"x\n\n\n", r"x\n\n\0\0\n\n", r"\n\nx", r"a\0b\n", r"\n", r"\0", r"a\n\n b\n\n",
+               r"a\r\n\r\n", r"a\n\t\n"]
+
+
+SUBST_FORMS = ["$(printf '%s')", "`printf '%s'`", "$(printf '%s' | cat)", "$(f_t() { printf '%s'; }; f_t)", "$( { printf '%s'; } )"]
+
+
+def gen_subst_tail(rng, idx, tail=None, form=None):
+    tag = "s%d" % idx
+    tail = tail if tail is not None else rng.choice(SUBST_TAILS)
+    form = (form if form is not None else rng.choice(SUBST_FORMS)) % tail
+    text = 'v=%s 2>/dev/null\necho "@sx.%s $? ${#v}"\n' % (form, tag)
+    text += 'printf "%%s" "$v" | cksum | { read -r a b; echo "@ck.%s $a $b"; }\n' % tag
+    text += 'printf "%%s" "x%sy" 2>/dev/null | sink -o "$L" -t .%sv\n' % (form.replace('"', '\\"') if False else form, tag)
+    return text, {"tag": tag, "kind": "subst", "size": 0, "form": "tail", "depth": 1}
+
+
 def build_script(rng, n, multi_cpu=False):
     text = PRELUDE
     metas = []
@@ -205,10 +244,14 @@ def build_script(rng, n, multi_cpu=False):
             t, m = gen_subst(rng, i)
         elif r < 0.87:
             t, m = gen_subst_inproc(rng, i, multi_cpu)
-        elif r < 0.91:
+        elif r < 0.90:
             t, m = gen_subst_status(rng, i)
-        elif r < 0.95:
+        elif r < 0.92:
             t, m = gen_subst_mb(rng, i)
+        elif r < 0.94:
+            t, m = gen_subst_tail(rng, i)
+        elif r < 0.97:
+            t, m = gen_read_hostile(rng, i)
         else:
             t, m = gen_read(rng, i)
         text += t
@@ -407,7 +450,8 @@ def run(run):
     run.rule = ("scripts of 5 items: pipelines of 1-3 filter stages (external, function, brace group, subshell, while-read loop, cat) "
                 "between an external generator of unique lines and a verifying sink (last stage external / group / function), payloads "
                 "{0,1,4095,65535,65536,65537,200000,1MiB}, chunk sizes and delays; early-exit consumers; command substitutions of the "
-                "same sizes nested to depth 3 with statuses; read-then-reader on files, pipes and here-strings; each under a pause-point "
+                "same sizes nested to depth 3 with statuses; read-then-reader on files, pipes and here-strings; `read` with and without -r over 12 payloads of "
+                "continuations / empty lines / trailing backslashes followed by a second read and cat; 14 NUL-and-newline tails of $( ) output in 5 forms; each under a pause-point "
                 "schedule and CPU pinning. non-trivial = distinct (stage-kind shapes, pause schedule, payload above pipe buffer?)")
     run.assumptions = ["conservation is definitional (generator and sink are the harness's own external programs); statuses from bash 5.2.15",
                        "hang verdict requires the /proc quiescence witness and bash finishing the same script",
@@ -426,6 +470,17 @@ def run(run):
         cpus = rng.choice(cpusets)
         text, metas = build_script(sub, 5, multi_cpu=(cpus is None or len(cpus) >= 2))
         items.append((text, metas, pauses[i % len(pauses)], cpus))
+    # always: every hostile `read` payload (with and without -r) and every NUL / newline tail of a command substitution in three forms
+    fixed = [(gen_read_hostile, (pl, o)) for pl in READ_PAYLOADS for o in ("", "-r ")]
+    fixed += [(gen_subst_tail, (t, f)) for t in SUBST_TAILS for f in SUBST_FORMS[:3]]
+    for k in range(0, len(fixed), 6):
+        text, metas = PRELUDE, []
+        for j, (fn, args) in enumerate(fixed[k:k + 6]):
+            t, m = fn(rng, j, *args)
+            text += t
+            metas.append(m)
+        items.append((text, metas, None, None))
+    run.count("fixed_read_and_tail_items", len(fixed))
     core.pmap(lambda it: judge(run, it), items, workers=8)
     run.extra["pause_points_observed"] = sorted(p for p in run.points if p)
     run.sample({"script": items[0][0], "pause": items[0][2]})
